@@ -22,7 +22,10 @@ Rep(j) == [shape |-> j.shape, common |-> j.common,
 Pairs(m) == [q \in DOMAIN m |-> <<m[q][1], m[q][2]>>]
 
 \* ---- clauses for an object that an operation created or changed -----------------------------
-\* ck: "exact" | "modal" | "any" | "exact-or-modal";   po = owner of the content clauses (C01 or C06)
+\* ck: "exact" | "modal" | "any" | "exact-or-modal";   po = owner of the content clauses (C01 or C06).
+\* The common value is constrained only where a property says so: exactly the caller's value for shift_common(v),
+\* from_array(common=..) and column_stack(new_common=..); a most frequent value after the library-chosen
+\* normalisations of C15; free ("any") for update, sliced, slices1d, reindexed, copy, column_stack without new_common.
 Target(po, t, valraise, shape, D, ck, cv) ==
   LET wf == WFClauses(t) IN
   wf
@@ -60,7 +63,6 @@ ToArray(e) ==
   IN IF e.exc THEN {"C01:raised"}
      ELSE (IF e.ret.shape # pre.shape THEN {"C01:shape"}
            ELSE If(FromNested(e.ret.a, e.ret.shape) # want, "C01:content"))
-          \cup If(a.dtype # "" /\ e.ret.dtype # a.dtype, "C01:explicit-dtype-not-honoured")
           \cup Unchanged("C17:receiver-changed", <<e.recv>>, <<e.recvpost>>)
 
 ShiftCommon(e) ==
@@ -81,7 +83,7 @@ UpdateOp(e) ==
       cells == [q \in DOMAIN e.args.cells |-> [k |-> e.args.cells[q].k, rows |-> e.args.cells[q].rows]]
   IN IF ~AssignDisjoint(cells) THEN {"out-of-contract"}
      ELSE IF e.exc THEN {"C06:raised"}
-     ELSE Target("C06", Rep(e.recvpost), e.recvpost.valraise, pre.shape, Assign(Abs(pre), cells), "exact", pre.common)
+     ELSE Target("C06", Rep(e.recvpost), e.recvpost.valraise, pre.shape, Assign(Abs(pre), cells), "any", pre.common)
 
 Filtered(e) ==
   LET pre == Rep(e.recv)  mask == e.args.mask
@@ -94,7 +96,7 @@ SlicedOp(e) ==
   LET pre == Rep(e.recv)  os == e.args.orders IN
   IF e.exc THEN {"C06:raised"}
   ELSE Target("C06", Rep(e.ret), e.ret.valraise, SliceShape(pre.shape, os), Sliced(Abs(pre), pre.shape, os),
-              "exact", pre.common)
+              "any", pre.common)
        \cup Unchanged("C17:receiver-changed", <<e.recv>>, <<e.recvpost>>)
 
 Slices1d(e) ==
@@ -107,7 +109,7 @@ Slices1d(e) ==
           \cup UNION {LET t == Rep(items[q].rep)  hc == items[q].coords IN
                       IF hc \notin labels THEN {}
                       ELSE Target("C06", t, items[q].rep.valraise, <<s[1]>>,
-                                  [cell \in Cells(<<s[1]>>) |-> D[<<cell[1]>> \o hc]], "exact", pre.common)
+                                  [cell \in Cells(<<s[1]>>) |-> D[<<cell[1]>> \o hc]], "any", pre.common)
                       : q \in DOMAIN items}
           \cup Unchanged("C17:receiver-changed", <<e.recv>>, <<e.recvpost>>)
 
@@ -116,7 +118,7 @@ Reindexed(e) ==
       m == IF a.hasmapping THEN Pairs(a.mapping) ELSE DefaultMapping(pre)
   IN IF e.exc THEN {"C06:raised"}
      ELSE Target("C06", Rep(e.ret), e.ret.valraise, pre.shape, MapDense(Abs(pre), m),
-                 "exact-or-modal", Lookup(m, pre.common, pre.common))
+                 "any", Lookup(m, pre.common, pre.common))
           \cup If(a.copy /\ e.shares, "C06:requested-copy-shares-storage")
           \cup Unchanged("C17:receiver-changed", <<e.recv>>, <<e.recvpost>>)
 
@@ -131,7 +133,7 @@ Collapsed(e) ==
 Copy(e) ==
   LET pre == Rep(e.recv) IN
   IF e.exc THEN {"C06:raised"}
-  ELSE Target("C06", Rep(e.ret), e.ret.valraise, pre.shape, Abs(pre), "exact", pre.common)
+  ELSE Target("C06", Rep(e.ret), e.ret.valraise, pre.shape, Abs(pre), "any", pre.common)
        \cup If(e.shares, "C06:requested-copy-shares-storage")
        \cup Unchanged("C17:receiver-changed", <<e.recv>>, <<e.recvpost>>)
 
